@@ -352,7 +352,7 @@ package phase0
 //@     invariant ctx_t > old(ctx_t) ==> !ctx_cancelled(ctx, old(ctx_t))
 
 //@ func ProcessEth1DataReset(ctx, spec, epc, state) err
-//@   property C18
+//@   property C18 C02
 //@   panics off
 //@   requires ctx != nil
 //@   opt weakcalls
@@ -365,9 +365,11 @@ package phase0
 //@   loop *
 //@     invariant ctx_t >= old(ctx_t) && (old(ctx_seen) || !ctx_seen)
 //@     invariant ctx_t > old(ctx_t) ==> !ctx_cancelled(ctx, old(ctx_t))
+//@   assigns ghost(n_eth1_reset)
+//@   ensures c02_reset: err == nil && spec != nil && epc != nil && spec.EPOCHS_PER_ETH1_VOTING_PERIOD != 0 ==> n_eth1_reset == old(n_eth1_reset) + ite(old(epc.NextEpoch.Epoch) % spec.EPOCHS_PER_ETH1_VOTING_PERIOD == 0, 1, 0)
 
 //@ func ProcessSlashingsReset(ctx, spec, epc, state) err
-//@   property C18
+//@   property C18 C02
 //@   panics off
 //@   requires ctx != nil
 //@   opt weakcalls
@@ -380,9 +382,11 @@ package phase0
 //@   loop *
 //@     invariant ctx_t >= old(ctx_t) && (old(ctx_seen) || !ctx_seen)
 //@     invariant ctx_t > old(ctx_t) ==> !ctx_cancelled(ctx, old(ctx_t))
+//@   assigns ghost(n_slash_reset), ghost(last_slash_reset)
+//@   ensures c02_reset: err == nil ==> n_slash_reset == old(n_slash_reset) + 1 && last_slash_reset == old(epc.NextEpoch.Epoch)
 
 //@ func ProcessRandaoMixesReset(ctx, spec, epc, state) err
-//@   property C18
+//@   property C18 C02
 //@   panics off
 //@   requires ctx != nil
 //@   opt weakcalls
@@ -395,9 +399,11 @@ package phase0
 //@   loop *
 //@     invariant ctx_t >= old(ctx_t) && (old(ctx_seen) || !ctx_seen)
 //@     invariant ctx_t > old(ctx_t) ==> !ctx_cancelled(ctx, old(ctx_t))
+//@   assigns ghost(n_set_mix), ghost(last_set_mix_epoch), ghost(last_set_mix)
+//@   ensures c02_reset: err == nil && state != nil ==> !st_mixes_err(state) && n_set_mix == old(n_set_mix) + 1 && last_set_mix_epoch == old(epc.NextEpoch.Epoch) && last_set_mix == mix_at(st_mixes(state), ite(old(epc.NextEpoch.Epoch) == 0, 0, old(epc.NextEpoch.Epoch) - 1))
 
 //@ func ProcessHistoricalRootsUpdate(ctx, spec, epc, state) err
-//@   property C18
+//@   property C18 C02
 //@   panics off
 //@   requires ctx != nil
 //@   opt weakcalls
@@ -410,6 +416,8 @@ package phase0
 //@   loop *
 //@     invariant ctx_t >= old(ctx_t) && (old(ctx_seen) || !ctx_seen)
 //@     invariant ctx_t > old(ctx_t) ==> !ctx_cancelled(ctx, old(ctx_t))
+//@   assigns ghost(n_hist_update)
+//@   ensures c02_update: err == nil && spec != nil && spec.SLOTS_PER_EPOCH != 0 && spec.SLOTS_PER_HISTORICAL_ROOT / spec.SLOTS_PER_EPOCH != 0 ==> n_hist_update == old(n_hist_update) + ite(old(epc.NextEpoch.Epoch) % (spec.SLOTS_PER_HISTORICAL_ROOT / spec.SLOTS_PER_EPOCH) == 0, 1, 0)
 
 //@ func ProcessParticipationRecordUpdates(ctx, spec, epc, state) err
 //@   property C18
@@ -467,7 +475,7 @@ package phase0
 //@     invariant ctx_t > old(ctx_t) ==> !ctx_cancelled(ctx, old(ctx_t))
 
 //@ func ProcessRandaoReveal(ctx, spec, epc, state, reveal) err
-//@   property C18
+//@   property C18 C03 C01
 //@   panics off
 //@   requires ctx != nil
 //@   opt weakcalls
@@ -480,6 +488,10 @@ package phase0
 //@   loop *
 //@     invariant ctx_t >= old(ctx_t) && (old(ctx_seen) || !ctx_seen)
 //@     invariant ctx_t > old(ctx_t) ==> !ctx_cancelled(ctx, old(ctx_t))
+//@   assigns ghost(n_set_mix), ghost(last_set_mix_epoch), ghost(last_set_mix)
+//@   assigns heap(CachedPubkey.decompressed)
+//@   ensures c03_reveal: old(spec != nil && spec.SLOTS_PER_EPOCH != 0 && state != nil && epc != nil && epc.ValidatorPubkeyCache != nil && (forall r PcPtr :: {pctrig(r)} pctrig(r) && alloc(r) ==> pc_local(r.pub2idx, r.idx2pub, r.trustedParentCount) && pc_chain(r.parent, r, r.trustedParentCount, r.parent.trustedParentCount, len(r.parent.idx2pub))) && (forall r PcPtr :: {held(r.rwLock)} held(r.rwLock) == 0)) && err == nil ==> (let ep := st_slot(state) / spec.SLOTS_PER_EPOCH in !state_domain_err(state, common.DOMAIN_RANDAO, ep) && sig_valid(reveal) && (exists pk Pub48T :: pub_valid(pk) && bls_ok(pk, seq(signing_root(epoch_root(ep), state_domain(state, common.DOMAIN_RANDAO, ep))), reveal)))
+//@   ensures c01_mix: spec != nil && spec.SLOTS_PER_EPOCH != 0 && state != nil && err == nil ==> (let ep := st_slot(state) / spec.SLOTS_PER_EPOCH in n_set_mix == old(n_set_mix) + 1 && last_set_mix_epoch == ep && (forall k :: {last_set_mix[k]} 0 <= k && k < 32 ==> last_set_mix[k] == mix_at(st_mixes(state), ep)[k] ^ sha256(seq(reveal))[k]))
 
 //@ func ProcessEpochRegistryUpdates(ctx, spec, epc, flats, state) err
 //@   property C18
@@ -525,6 +537,7 @@ package phase0
 //@   loop *
 //@     invariant ctx_t >= old(ctx_t) && (old(ctx_seen) || !ctx_seen)
 //@     invariant ctx_t > old(ctx_t) ==> !ctx_cancelled(ctx, old(ctx_t))
+//@   assigns ghost(n_eth1_reset), ghost(n_slash_reset), ghost(last_slash_reset), ghost(n_set_mix), ghost(last_set_mix_epoch), ghost(last_set_mix), ghost(n_hist_update)
 //@   assigns ghost(n_set_prevjust), ghost(set_prevjust), ghost(n_set_curjust), ghost(set_curjust), ghost(n_set_fin), ghost(set_fin), ghost(n_set_jbits), ghost(set_jbits)
 
 //@ func (state *BeaconStateView) ProcessBlock(ctx, spec, epc, benv) err
@@ -541,6 +554,7 @@ package phase0
 //@   loop *
 //@     invariant ctx_t >= old(ctx_t) && (old(ctx_seen) || !ctx_seen)
 //@     invariant ctx_t > old(ctx_t) ==> !ctx_cancelled(ctx, old(ctx_t))
+//@   assigns ghost(n_set_mix), ghost(last_set_mix_epoch), ghost(last_set_mix)
 
 //@ func ProcessVoluntaryExits(ctx, spec, epc, state, ops) err
 //@   property C18
